@@ -1,6 +1,8 @@
 package main
 
 import (
+	"go/types"
+	"regexp"
 	"fmt"
 	"go/token"
 	"strings"
@@ -311,8 +313,8 @@ func runC34(c *Ctx) {
 				}
 				for _, v := range []ssa.Value{bo.X, bo.Y} {
 					if cl, ok := v.(*ssa.Call); ok && calleeName(cl.Common()) == "(*math/big.Int).Cmp" {
-						r, _ := callArgs(cl.Common())
-						if strings.HasSuffix(render(r), ".Stake()") {
+						r, ra := callArgs(cl.Common())
+						if strings.HasSuffix(render(r), ".Stake()") || (len(ra) == 1 && strings.HasSuffix(render(ra[0]), ".Stake()")) {
 							p := predOf(g)
 							if p.Kind == "ge" && p.L.K <= 0 {
 								for atom, co := range p.L.T {
@@ -328,8 +330,11 @@ func runC34(c *Ctx) {
 			if cmp == nil {
 				c.violate("C34.voting-power", "SetDelegation: stake ≥ new delegation + bond + unbond", sd[0].Pos(), "no dominating comparison of the stake")
 			} else {
-				_, ca := callArgs(cmp.Common())
+				cr, ca := callArgs(cmp.Common())
 				using := ca[0]
+				if strings.HasSuffix(render(using), ".Stake()") {
+					using = cr // written the other way round: using.Cmp(stake)
+				}
 				parts := map[string]bool{}
 				// base: new(big.Int).Set(ds.GetDelegationAmount())
 				if cl, ok := using.(*ssa.Call); ok && calleeName(cl.Common()) == "(*math/big.Int).Set" {
@@ -422,7 +427,179 @@ func runC34(c *Ctx) {
 			c.check(strings.Contains(r, "GetVoting()") && strings.Contains(r, "totalUnbond") && strings.Contains(r, ".Add("), "C34.voting-power", "UsingStake = delegated + bonded + unbonding", e.pos(), r, "UsingStake is "+r)
 		}
 	}
+	runC34Extra(c)
 	_ = token.NoPos
+}
+
+// runC34Extra: who may create ICX; both timers of a height are served;
+// activation/deactivation of a P-Rep moves its collected delegation into/out
+// of the network total; a merged unstake slot never expires before the newly
+// unstaked amount's own lock period ends; list clones own their elements.
+func runC34Extra(c *Ctx) {
+	const ii, ics = "icon/iiss", "icon/iiss/icstate"
+	// (1) mint sites
+	allowed := map[string]string{
+		"handleICXIssue":       "block issuance into the treasury (the amount the issue term computed)",
+		"handleUnstakingTimer": "return of expired unstakes (amount = RemoveUnstake result, rule unstake-return)",
+	}
+	nDep := 0
+	for _, f := range c.pkgFuncs(ii) {
+		if strings.HasSuffix(c.file(f.Pos()), "_test.go") {
+			continue
+		}
+		for _, cs := range c.calls(f, byMethod("Deposit")) {
+			if !cs.Common().IsInvoke() {
+				continue
+			}
+			nDep++
+			top := f
+			for top.Parent() != nil {
+				top = top.Parent()
+			}
+			_, ok := allowed[top.Name()]
+			c.check(ok, "C34.mint-sites", "ICX is credited without a matching debit only at the two known sites", cs.Pos(), top.Name()+": "+allowed[top.Name()], fnName(f)+" calls Deposit: ICX is created outside block issuance and unstake return (a claim or refund must Transfer from the account that holds the funds)")
+		}
+	}
+	if nDep < 2 {
+		c.undecided("C34.mint-sites", "Deposit call sites in icon/iiss", token.NoPos, fmt.Sprintf("expected ≥2, found %d", nDep))
+	}
+	// (2) both timers
+	if f := c.mustFn(ii, "ExtensionStateImpl", "handleTimerJob"); f != nil {
+		us := c.calls(f, byCallee("ExtensionStateImpl).handleUnstakingTimer"))
+		ub := c.calls(f, byCallee("ExtensionStateImpl).handleUnbondingTimer"))
+		if len(us) != 1 || len(ub) != 1 {
+			c.violate("C34.timers", "handleTimerJob serves both timers", f.Pos(), fmt.Sprintf("%d unstaking / %d unbonding handler calls", len(us), len(ub)))
+		} else {
+			for _, pair := range []struct {
+				must callSite
+				name string
+				snap string
+			}{{us[0], "unstaking", `GetUnstakingTimerSnapshot\(`}, {ub[0], "unbonding", `GetUnbondingTimerSnapshot\(`}} {
+				bad := false
+				tr := ""
+				for _, e := range exitAlts(f) {
+					if definitelyNonNilErr(e.Results[0], e.Guards) {
+						continue
+					}
+					if t0, by := pathAvoidingEdges(f, f.Blocks[0].Instrs[0], func(in ssa.Instruction) bool { return in == ssa.Instruction(e.Ret) }, func(in ssa.Instruction) bool { return in == ssa.Instruction(pair.must.Instr) },
+						wSame("no timer at this height", pair.snap, `^nil$`), wDiffer("the other handler failed", `handleUn(bond|stak)ingTimer\(`, `^nil$`)); by {
+						bad = true
+						tr = traceString(t0)
+					}
+				}
+				c.check(!bad, "C34.timers", "handleTimerJob cannot succeed without serving the "+pair.name+" timer of the height", pair.must.Pos(), "skipped only when there is none", "a non-failing exit bypasses the "+pair.name+" timer ("+tr+"): the expired amounts of that height are never released")
+			}
+		}
+	}
+	// (3) activation ↔ total delegation
+	for _, spec := range []struct{ fn, trigger, op string }{{"RegisterPRep", "Activate", "Add"}, {"DisablePRep", "DisableAs", "Sub"}} {
+		f := c.fn(ics, "State", spec.fn)
+		if f == nil {
+			// the disabling function may carry another name: find it by its trigger
+			for _, g := range c.pkgFuncs(ics) {
+				if g.Signature.Recv() != nil && namedOf(g.Signature.Recv().Type()) == "State" && len(c.calls(g, byMethod(spec.trigger))) > 0 && g.Parent() == nil {
+					f = g
+				}
+			}
+		}
+		if f == nil {
+			c.undecided("C34.activation-total", spec.fn, token.NoPos, "function not found")
+			continue
+		}
+		var adj []callSite
+		for _, cs := range c.calls(f, byCallee("State).SetTotalDelegation")) {
+			_, a := callArgs(cs.Common())
+			r := render(a[0])
+			if strings.Contains(r, "."+spec.op+"($r.GetTotalDelegation(),") && strings.Contains(r, ".Delegated())") {
+				adj = append(adj, cs)
+			}
+		}
+		if len(adj) != 1 {
+			c.violate("C34.activation-total", fnName(f)+" moves the P-Rep's delegation "+map[string]string{"Add": "into", "Sub": "out of"}[spec.op]+" the network total", f.Pos(), fmt.Sprintf("%d SetTotalDelegation(total %s ps.Delegated()) calls: after the status change the total no longer equals the sum of delegations to active P-Reps", len(adj), spec.op))
+			continue
+		}
+		if spec.op == "Add" {
+			bad := false
+			for _, e := range exitAlts(f) {
+				if !isNilConst(e.Results[0]) {
+					continue
+				}
+				if _, by := pathAvoidingEdges(f, f.Blocks[0].Instrs[0], func(in ssa.Instruction) bool { return in == ssa.Instruction(e.Ret) }, func(in ssa.Instruction) bool { return in == ssa.Instruction(adj[0].Instr) },
+					wGE("nothing delegated yet", 0, t(-1, `\.Delegated\(\)$`))); by {
+					bad = true
+				}
+			}
+			c.check(!bad, "C34.activation-total", fnName(f)+" succeeds only after adding the collected delegation to the total", adj[0].Pos(), "skipped only when nothing is delegated", "a successful registration bypasses the total-delegation update")
+		} else {
+			c.ok("C34.activation-total", fnName(f)+" subtracts the delegation of a P-Rep that stops being active", adj[0].Pos(), "total − ps.Delegated()")
+		}
+	}
+	// (4) merged unstake slot
+	if f := c.mustFn(ics, "Unstakes", "increaseUnstake"); f != nil {
+		n := 0
+		for _, cs := range c.calls(f, byCallee("icstate.NewUnstake")) {
+			_, a := callArgs(cs.Common())
+			if _, isParam := a[1].(*ssa.Parameter); isParam {
+				continue // a slot of its own with the requested expiry
+			}
+			for _, fl := range flowsOf(a[1], nil) {
+				n++
+				if render(fl.Src) == "$1" {
+					c.ok("C34.unstake-expiry", "merged slot takes the new expiry", cs.Pos(), guardsString(fl.Guards))
+					continue
+				}
+				c.requireGuard("C34.unstake-expiry", "merged slot keeps its old expiry "+render(fl.Src), cs.Pos(), fl.Guards, wGE("old expiry ≥ new expiry", 0, t(1, "^"+regexp.QuoteMeta(render(fl.Src))+"$"), t(-1, `^\$1$`)))
+			}
+		}
+		if n < 2 {
+			c.undecided("C34.unstake-expiry", "increaseUnstake merged slot", f.Pos(), fmt.Sprintf("expected 2 flows into the merged expiry, found %d", n))
+		}
+	}
+	// (5) clones own their elements
+	nCl := 0
+	for _, f := range c.pkgFuncs(ics) {
+		if f.Name() != "Clone" || f.Signature.Recv() == nil || f.Parent() != nil {
+			continue
+		}
+		rt := f.Signature.Results().At(0).Type()
+		sl, ok := rt.Underlying().(*types.Slice)
+		if !ok {
+			continue
+		}
+		pt, ok := sl.Elem().(*types.Pointer)
+		if !ok {
+			continue
+		}
+		hasClone := false
+		ms := c.L.Prog.MethodSets.MethodSet(pt)
+		for i := 0; i < ms.Len(); i++ {
+			if ms.At(i).Obj().Name() == "Clone" {
+				hasClone = true
+			}
+		}
+		if !hasClone {
+			continue
+		}
+		for _, b := range f.Blocks {
+			for _, in := range b.Instrs {
+				st, ok := in.(*ssa.Store)
+				if !ok {
+					continue
+				}
+				ia, ok := st.Addr.(*ssa.IndexAddr)
+				if !ok || !types.Identical(st.Val.Type(), pt) {
+					continue
+				}
+				_ = ia
+				nCl++
+				call, isCall := st.Val.(*ssa.Call)
+				c.check(isCall && methodName(call.Common()) == "Clone", "C34.clone-deep", fnName(f)+" copies each element", st.Pos(), "elem.Clone()", "the clone shares its elements with the original ("+render(st.Val)+"): a mutation of the working copy also changes the committed snapshot, so a reverted operation leaves its changes behind")
+			}
+		}
+	}
+	if nCl < 4 {
+		c.undecided("C34.clone-deep", "element stores in list clones", token.NoPos, fmt.Sprintf("expected ≥4 (Unstakes, Unbonds, Bonds, Delegations), found %d", nCl))
+	}
 }
 
 func keysOf(m map[string]bool) []string {
